@@ -132,7 +132,9 @@ def decode_opt(t):
     return bool(t.optional)
 
 
-def intervals(P, n, prefix="", nonneg=True, ordered=True):
+def intervals(P, n, prefix="", nonneg=True, ordered=True, distinct=False):
+    """n intervals with symbolic bounds; ordered: pairwise disjoint, in ascending order; otherwise in any order,
+    overlapping or nested (distinct: no two of them equal -- they are the keys of a dict)"""
     ivs = [(P.int(f"{prefix}lo{i}"), P.int(f"{prefix}hi{i}")) for i in range(n)]
     for lo, hi in ivs:
         if nonneg:
@@ -141,6 +143,10 @@ def intervals(P, n, prefix="", nonneg=True, ordered=True):
     if ordered:
         for (l1, h1), (l2, h2) in zip(ivs, ivs[1:]):
             P.assume(h1 <= l2)
+    elif distinct:
+        for i in range(n):
+            for j in range(i + 1, n):
+                P.assume(Or(T(ivs[i][0]) != T(ivs[j][0]), T(ivs[i][1]) != T(ivs[j][1])))
     return ivs
 
 
@@ -156,12 +162,14 @@ class ResourceUnavailable(RCBase):
         return [{"nint": n} for n in ((1, 2) if tier == "quick" else (1, 2, 3))]
 
     def build_constraint(self, ps, P, case, res, tasks):
-        return ps.ResourceUnavailable(resource=res, list_of_time_intervals=intervals(P, case["nint"]))
+        # any list of intervals: in any order, overlapping or nested (the same interval twice is rejected by the
+        # library as a duplicated assertion: outside the precondition)
+        return ps.ResourceUnavailable(resource=res, list_of_time_intervals=intervals(P, case["nint"], ordered=False, distinct=True))
 
     def meaning(self, P, ctx, case):
         cs = []
         for t, u, cond, bs, be in self.held(ctx):
-            for lo, hi in intervals(P, case["nint"]):
+            for lo, hi in intervals(P, case["nint"], ordered=False, distinct=True):
                 cs.append(Implies(And(cond, be > bs), Not(spec.strictly_overlap(bs, be, lo, hi))))
         return And(*cs)
 
@@ -169,7 +177,7 @@ class ResourceUnavailable(RCBase):
         # zero-length busy intervals strictly inside an unavailability: "does no work" is silent about them
         hs = []
         for t, u, cond, bs, be in self.held(ctx):
-            for lo, hi in intervals(P, case["nint"]):
+            for lo, hi in intervals(P, case["nint"], ordered=False, distinct=True):
                 hs.append(Implies(And(cond, be == bs), Or(bs <= T(lo), bs >= T(hi))))
         return hs
 
@@ -363,13 +371,13 @@ class WorkLoad(RCBase):
         return [dict(kind=k, nint=n) for k in ("exact", "max", "min") for n in (1, 2)]
 
     def build_constraint(self, ps, P, case, res, tasks):
-        ivs = intervals(P, case["nint"])
+        ivs = intervals(P, case["nint"], ordered=False, distinct=True)
         d = {iv: P.int(f"bound{i}") for i, iv in enumerate(ivs)}
         return ps.WorkLoad(resource=res, dict_time_intervals_and_bound=d, kind=case["kind"])
 
     def meaning(self, P, ctx, case):
         cs = []
-        for i, (lo, hi) in enumerate(intervals(P, case["nint"])):
+        for i, (lo, hi) in enumerate(intervals(P, case["nint"], ordered=False, distinct=True)):
             tot = z3.Sum([If(cond, spec.overlap_len(bs, be, lo, hi), 0) for t, u, cond, bs, be in self.held(ctx)])
             cs.append(spec.cmp_kind(case["kind"], tot, P.int(f"bound{i}")))
         return And(*cs)
@@ -377,7 +385,7 @@ class WorkLoad(RCBase):
     def complete_regions(self, P, ctx, case):
         rs = []
         for t, u, cond, bs, be in self.held(ctx):
-            for lo, hi in intervals(P, case["nint"]):
+            for lo, hi in intervals(P, case["nint"], ordered=False, distinct=True):
                 rs.append(And(bs < T(lo), be > T(hi)))
         return {"a busy interval strictly contains a workload interval": Or(*rs)}
 
@@ -412,7 +420,7 @@ class ResourceTasksDistance(DistBase):
         P.assume(P.int("distance") >= 0)
         kw = dict(resource=res, distance=P.int("distance"), mode=case["mode"])
         if case["nint"]:
-            kw["list_of_time_intervals"] = intervals(P, case["nint"], prefix="d")
+            kw["list_of_time_intervals"] = intervals(P, case["nint"], prefix="d", ordered=False)
         return ps.ResourceTasksDistance(**kw)
 
     def raises(self, P, case):
@@ -424,7 +432,7 @@ class ResourceTasksDistance(DistBase):
         for cond, gap, prev_end, next_start in self.gaps(ctx):
             rel = {"exact": gap == d, "min": gap >= d, "max": gap <= d}[case["mode"]]
             if case["nint"]:
-                inside = Or(*[And(T(lo) <= prev_end, next_start <= T(hi)) for lo, hi in intervals(P, case["nint"], prefix="d")])
+                inside = Or(*[And(T(lo) <= prev_end, next_start <= T(hi)) for lo, hi in intervals(P, case["nint"], prefix="d", ordered=False)])
                 cs.append(Implies(And(cond, inside), rel))
             else:
                 cs.append(Implies(cond, rel))
